@@ -271,6 +271,32 @@ func init() {
 			ex := map[string]string{fmt.Sprintf("%c%c_%s.json", 'a'+byte(r.Intn(26)), 'a'+byte(r.Intn(26)), strings.ToLower(super)): body}
 			jobs = append(jobs, &cfgCase{BSpec: CfgSpec{Extra: ex}, Source: src, Argv: Pick(r, [][]string{{}, {"-i"}}), Kind: "extra-classes", Feature: "forward-superclass+reused-short-name"})
 		}
+		// user modules (included, extended, called) whose name a configured class of
+		// another frame also has. (A CONSTANT of that name is not covered by the
+		// property: the program then does mention the name, and not as a class.)
+		for k := 0; k < c.N(16, 200); k++ {
+			name := Pick(r, []string{"Helper", "Util", "Greeter", "Tools"})
+			var sb strings.Builder
+			feat := "module-include+reused-short-name"
+			switch r.Intn(3) {
+			case 0:
+				fmt.Fprintf(&sb, "module %s\n  def helper\n    1\n  end\nend\n\nclass Host\n  include %s\nend\n\nh = Host.new\ndbtp h.helper\nh.zzext\n", name, name)
+			case 1:
+				fmt.Fprintf(&sb, "module %s\n  def helper\n    \"s\"\n  end\nend\n\nclass Host\n  extend %s\nend\n\ndbtp Host.helper\n", name, name)
+			default:
+				fmt.Fprintf(&sb, "module %s\n  def self.build\n    2.5\n  end\nend\n\ndbtp %s.build\n", name, name)
+			}
+			fr := Pick(r, []string{"Extlib", "Vendor"})
+			gc := &GClass{Name: name, Methods: []*GMethod{{Name: "helper", Params: []GParam{{Types: []string{"String"}}}, Ret: []string{"Float"}}, {Name: "new", Static: true, Ret: []string{"Int"}}}}
+			body := gc.toJSON(Notation{}, r, nil)
+			if r.Bool() {
+				body = strings.Replace(body, `"frame": "Builtin"`, `"frame": "`+fr+`"`, 1)
+			} else {
+				body = strings.Replace(body, `"class": "`+name+`"`, `"class": "`+fr+`::`+name+`"`, 1)
+			}
+			ex := map[string]string{fmt.Sprintf("%c%c_%s.json", 'a'+byte(r.Intn(26)), 'a'+byte(r.Intn(26)), strings.ToLower(name)): body}
+			jobs = append(jobs, &cfgCase{BSpec: CfgSpec{Extra: ex}, Source: sb.String(), Argv: Pick(r, [][]string{{}, {"-i"}}), Kind: "extra-classes", Feature: feat})
+		}
 		// a class in another frame that reuses the short name of a CORE class and
 		// redeclares one of its methods with another signature
 		if model, err := BuildModel(ShippedConfig()); err == nil {
